@@ -305,7 +305,10 @@ fn opt_off(r: gimli::Result<Option<usize>>) -> Value {
     }
 }
 
-fn die_once(c: &Cf, info: &[u8], abbrev: &[u8], file: &Value) -> Value {
+/// `split`: (skeleton .debug_info, its .debug_abbrev, the main file's .debug_addr): the unit is
+/// then treated as the split unit of that skeleton: `make_dwo(parent)`, `Unit::new`,
+/// `copy_relocated_attributes(skeleton unit)` before the queries.
+fn die_once(c: &Cf, info: &[u8], abbrev: &[u8], file: &Value, split: Option<(&[u8], &[u8], &[u8])>) -> Value {
     let e = endian(c.le);
     let addr = bytes_of(&file["addr"]);
     let ranges = bytes_of(&file["ranges"]);
@@ -329,7 +332,36 @@ fn die_once(c: &Cf, info: &[u8], abbrev: &[u8], file: &Value) -> Value {
         ))
     })
     .unwrap();
-    if c.dwo {
+    let parent = split.map(|(pinfo, pabbrev, paddr)| {
+        gimli::Dwarf::load(|id| -> Result<R, ()> {
+            Ok(EndianSlice::new(
+                match id {
+                    SectionId::DebugInfo => pinfo,
+                    SectionId::DebugAbbrev => pabbrev,
+                    SectionId::DebugAddr => paddr,
+                    SectionId::DebugRanges => &ranges,
+                    SectionId::DebugRngLists => &rnglists,
+                    SectionId::DebugLoc => &loc,
+                    SectionId::DebugLocLists => &loclists,
+                    _ => empty,
+                },
+                e,
+            ))
+        })
+        .unwrap()
+    });
+    let mut skeleton = None;
+    if let Some(p) = &parent {
+        let h = match p.units().next() {
+            Ok(Some(h)) => h,
+            _ => return json!({"unit":{"t":"err","err":"NoSkeletonHeader"}}),
+        };
+        match gimli::Unit::new(p, h) {
+            Ok(u) => skeleton = Some(u),
+            Err(x) => return json!({"unit":{"t":"err","err":err_name(&x),"stage":"skeleton"}}),
+        }
+        dwarf.make_dwo(p);
+    } else if c.dwo {
         dwarf.file_type = DwarfFileType::Dwo;
     }
     let header = match dwarf.units().next() {
@@ -337,10 +369,14 @@ fn die_once(c: &Cf, info: &[u8], abbrev: &[u8], file: &Value) -> Value {
         Ok(None) => return json!({"unit":{"t":"err","err":"NoUnit"}}),
         Err(x) => return json!({"unit":{"t":"err","err":err_name(&x),"stage":"header"}}),
     };
-    let unit = match gimli::Unit::new(&dwarf, header) {
+    let mut unit = match gimli::Unit::new(&dwarf, header) {
         Ok(u) => u,
         Err(x) => return json!({"unit":{"t":"err","err":err_name(&x)}}),
     };
+    if let Some(sk) = &skeleton {
+        unit.copy_relocated_attributes(sk);
+    }
+    let unit = unit;
     let cap = 64;
     let mut attrs: Vec<Value> = vec![];
     let mut cursor = unit.entries();
@@ -395,17 +431,24 @@ fn die_once(c: &Cf, info: &[u8], abbrev: &[u8], file: &Value) -> Value {
            "attrs":attrs,"die":die,"ur":ur,"raw0":cv(raw0 as u64)})
 }
 
-fn replay_die(case: &Value) -> Value {
-    let c = cf_of(&case["cf"]);
-    let abbrev = bytes_of(&case["abbrev"]);
+/// All version variants of one unit image; the first observation plus the variants that differ.
+fn die_variants(c: &Cf, infos: &Value, abbrev: &[u8], file: &Value, split: Option<&Value>) -> Value {
     let mut first: Option<Value> = None;
     let mut diff: Vec<Value> = vec![];
     let mut n = 0;
-    for inf in case["info"].as_array().cloned().unwrap_or_default() {
+    for (k, inf) in infos.as_array().cloned().unwrap_or_default().iter().enumerate() {
         let ver = inf["ver"].as_u64().unwrap_or(0) as u16;
         let info = bytes_of(&inf["bytes"]);
-        let cc = Cf { ver, ..c };
-        let o = guarded(|| die_once(&cc, &info, &abbrev, &case["file"]));
+        let cc = Cf { ver, ..*c };
+        let o = match split {
+            Some(sp) => {
+                let pinfo = bytes_of(&sp["pinfo"][k]["bytes"]);
+                let pabbrev = bytes_of(&sp["pabbrev"]);
+                let paddr = bytes_of(&sp["paddr"]);
+                guarded(|| die_once(&cc, &info, abbrev, file, Some((&pinfo, &pabbrev, &paddr))))
+            }
+            None => guarded(|| die_once(&cc, &info, abbrev, file, None)),
+        };
         n += 1;
         match &first {
             None => first = Some(o),
@@ -422,6 +465,20 @@ fn replay_die(case: &Value) -> Value {
     }
     o["variants"] = json!(n);
     o["diff"] = Value::Array(diff);
+    o
+}
+
+fn replay_die(case: &Value) -> Value {
+    let c = cf_of(&case["cf"]);
+    let abbrev = bytes_of(&case["abbrev"]);
+    let mut o = die_variants(&c, &case["info"], &abbrev, &case["file"], None);
+    if o.get("outcome").is_some() {
+        return o;
+    }
+    // the same unit as the split unit of a skeleton in another file
+    if let Some(sp) = case["split"].as_array().and_then(|a| a.first()) {
+        o["split"] = die_variants(&c, &case["info"], &abbrev, &case["file"], Some(sp));
+    }
     o
 }
 
